@@ -576,12 +576,16 @@ func genCase(c *vh.Ctx) rcase {
 	}
 	if wantRet {
 		rc.Return = returnFor(r, rc.Inputs, retCoin, []int{0, 0, 0, 1, 2, 3, 4}[r.Intn(7)])
+		if r.Chance(1, 12) {
+			// more is returned than the inputs hold: negative balance
+			rc.Return.Coin = total + uint64(1+r.Intn(1000))
+		}
 	}
 	return rc
 }
 
 func run(c *vh.Ctx) error {
-	c.Res.Rule = "Alonzo..Dijkstra transactions built as CBOR (redeemers in array and map form, collateral inputs, collateral return in array and map output form) decoded by the era decoders; collateral UTxOs decoded by the era output decoders and served by a mock ledger state; fee x percentage mostly not divisible by 100; balance at floor/ceil of the share and one either side; tokens: none / empty map / empty policy / zero quantity / 1-3 assets; return exact or perturbed (quantity+1, asset dropped, asset added, zero entry added); distinct by the whole generator record; non-trivial = has redeemers and at least one collateral input"
+	c.Res.Rule = "Alonzo..Dijkstra transactions built as CBOR (redeemers in array and map form, collateral inputs, collateral return in array and map output form) decoded by the era decoders; collateral UTxOs decoded by the era output decoders and served by a mock ledger state; fee x percentage mostly not divisible by 100; balance at floor/ceil of the share and one either side; tokens: none / empty map / empty policy / zero quantity / 1-3 assets; return exact or perturbed (quantity+1, asset dropped, asset added, zero entry added), sometimes larger than the inputs (negative balance); distinct by the whole generator record; non-trivial = has redeemers and at least one collateral input"
 	c.Res.Modelled = []string{
 		"'runs scripts' is taken as 'has at least one redeemer', as the code does",
 		"MultiAsset.Compare is modelled as equality of all per-asset quantities (absent = 0)",
@@ -612,6 +616,7 @@ func run(c *vh.Ctx) error {
 		runCase(c, cf, rcase{Era: era, NRedeemers: 1, Inputs: one(2), Fee: 1, Pct: 150, MaxColl: 3})
 		runCase(c, cf, rcase{Era: era, NRedeemers: 1, Inputs: one(5000000), Fee: 1000000, Pct: 150, MaxColl: 3, Return: &outSpec{Coin: 4900000}})
 		runCase(c, cf, rcase{Era: era, NRedeemers: 1, Inputs: []outSpec{{Coin: 9}, {Coin: 9}}, Fee: 1, Pct: 100, MaxColl: 1})
+		runCase(c, cf, rcase{Era: era, NRedeemers: 1, Inputs: one(1000000), Fee: 10, Pct: 150, MaxColl: 3, Return: &outSpec{Coin: 2000000}})
 		runCase(c, cf, rcase{Era: era, NRedeemers: 1, Fee: 0, Pct: 150, MaxColl: 3})
 		runCase(c, cf, rcase{Era: era, NRedeemers: 0, Fee: 10, Pct: 150, MaxColl: 3})
 		runCase(c, cf, rcase{Era: era, NRedeemers: 1, Inputs: []outSpec{{Coin: 100, Shape: 1, Assets: []asset{{0, 1, 5}}}}, Fee: 10, Pct: 150, MaxColl: 3})
